@@ -13,3 +13,339 @@ Proof. destruct fr; [left|right; left|right; right]; repeat eexists. Qed.
 
 Lemma parse_frame_json fr : parse_frame (frame_json fr) = Some fr.
 Proof. destruct fr; reflexivity. Qed.
+
+(* ------------------------------------------------------------------ *)
+(** * the text layer of strings *)
+
+(** code points Go can hold in a string after decoding valid UTF-8: the escapes need 16 bits only for the
+    characters that are escaped (all below U+2030) *)
+Definition cp_ok (c : Z) : Prop := (0 <= c)%Z.
+
+Lemma unhex_hexd d : (0 <= d < 16)%Z -> unhex (hexd d) = Some d.
+Proof.
+  intros H. unfold hexd, unhex. destruct (d <? 10)%Z eqn:E.
+  - apply Z.ltb_lt in E.
+    replace ((48 <=? 48 + d) && (48 + d <=? 57))%Z with true by (symmetry; apply andb_true_iff; split; apply Z.leb_le; lia).
+    f_equal. lia.
+  - apply Z.ltb_ge in E.
+    replace ((48 <=? 87 + d) && (87 + d <=? 57))%Z with false by (symmetry; apply andb_false_iff; right; apply Z.leb_gt; lia).
+    replace ((97 <=? 87 + d) && (87 + d <=? 102))%Z with true by (symmetry; apply andb_true_iff; split; apply Z.leb_le; lia).
+    f_equal. lia.
+Qed.
+
+Lemma hex4 c : (0 <= c < 65536)%Z ->
+  (c / 4096 mod 16 * 4096 + c / 256 mod 16 * 256 + c / 16 mod 16 * 16 + c mod 16 = c)%Z.
+Proof.
+  intros H.
+  pose proof (Z.div_mod c 16 ltac:(lia)). pose proof (Z.div_mod (c / 16) 16 ltac:(lia)).
+  pose proof (Z.div_mod (c / 16 / 16) 16 ltac:(lia)).
+  replace (c / 256)%Z with (c / 16 / 16)%Z by (rewrite Z.div_div by lia; reflexivity).
+  replace (c / 4096)%Z with (c / 16 / 16 / 16)%Z by (rewrite !Z.div_div by lia; reflexivity).
+  assert (c / 16 / 16 / 16 < 16)%Z by (rewrite !Z.div_div by lia; apply Z.div_lt_upper_bound; lia).
+  assert (0 <= c / 16 / 16 / 16)%Z by (apply Z.div_pos; [apply Z.div_pos; [apply Z.div_pos|]|]; lia).
+  rewrite (Z.mod_small (c / 16 / 16 / 16) 16) by lia. lia.
+Qed.
+
+Lemma parse_u_escape f c rest r : (0 <= c < 65536)%Z -> parse_str f rest = Some r ->
+  parse_str (S f) (u_escape c ++ rest) = Some (c :: r).
+Proof.
+  intros Hc Hr. unfold u_escape. cbn [app parse_str].
+  change (92 =? 92)%Z with true. change (117 =? 117)%Z with true. cbv iota.
+  assert (B : forall x, (0 <= x mod 16 < 16)%Z) by (intros; apply Z.mod_pos_bound; lia).
+  rewrite !unhex_hexd by apply B. rewrite Hr. rewrite hex4 by exact Hc. reflexivity.
+Qed.
+
+Lemma parse_str_mono f : forall l r, parse_str f l = Some r -> parse_str (S f) l = Some r.
+Proof.
+  induction f as [|f IH]; intros l r H; [discriminate|].
+  cbn [parse_str] in *. destruct l as [|c l]; [exact H|].
+  destruct (c =? 92)%Z.
+  - destruct l as [|e l1]; [discriminate|]. destruct (e =? 117)%Z.
+    + destruct l1 as [|a [|b [|c' [|d r2]]]]; try discriminate.
+      destruct (unhex a), (unhex b), (unhex c'), (unhex d); try discriminate.
+      destruct (parse_str f r2) eqn:E; [|discriminate]. rewrite (IH _ _ E). exact H.
+    + destruct (parse_str f l1) eqn:E; [|discriminate]. rewrite (IH _ _ E). exact H.
+  - destruct ((c =? 34)%Z || (c <? 32)%Z); [discriminate|].
+    destruct (parse_str f l) eqn:E; [|discriminate]. rewrite (IH _ _ E). exact H.
+Qed.
+
+Lemma parse_print_cp esc f c rest r : (0 <= c)%Z -> parse_str f rest = Some r ->
+  parse_str (S f) (print_cp esc c ++ rest) = Some (c :: r).
+Proof.
+  intros Hc Hr. unfold print_cp.
+  destruct (c =? 34)%Z eqn:E34; [apply Z.eqb_eq in E34; subst; cbn; rewrite Hr; reflexivity|].
+  destruct (c =? 92)%Z eqn:E92; [apply Z.eqb_eq in E92; subst; cbn; rewrite Hr; reflexivity|].
+  destruct (c =? 10)%Z eqn:E10; [apply Z.eqb_eq in E10; subst; cbn; rewrite Hr; reflexivity|].
+  destruct (c =? 13)%Z eqn:E13; [apply Z.eqb_eq in E13; subst; cbn; rewrite Hr; reflexivity|].
+  destruct (c =? 9)%Z eqn:E9; [apply Z.eqb_eq in E9; subst; cbn; rewrite Hr; reflexivity|].
+  destruct (c <? 32)%Z eqn:E32; [apply Z.ltb_lt in E32; apply parse_u_escape; [lia|exact Hr]|].
+  destruct (esc && ((c =? 60)%Z || (c =? 62)%Z || (c =? 38)%Z)) eqn:Eh.
+  { apply andb_true_iff in Eh as [_ Eh]. apply parse_u_escape; [|exact Hr].
+    apply orb_true_iff in Eh as [Eh|Eh]; [apply orb_true_iff in Eh as [Eh|Eh]|]; apply Z.eqb_eq in Eh; lia. }
+  destruct ((c =? 8232)%Z || (c =? 8233)%Z) eqn:El.
+  { apply parse_u_escape; [|exact Hr]. apply orb_true_iff in El as [El|El]; apply Z.eqb_eq in El; lia. }
+  cbn [app parse_str]. rewrite E92, E34, E32. cbn [orb]. rewrite Hr. reflexivity.
+Qed.
+
+(** every string survives printing and parsing, under both escaping settings *)
+Theorem parse_print_str : forall esc s, Forall cp_ok s ->
+  exists f, parse_str f (print_str esc s) = Some s.
+Proof.
+  intros esc s H. induction H as [|c s Hc Hs [f IH]].
+  - exists 1%nat. reflexivity.
+  - exists (S f). unfold print_str. cbn [map concat]. apply parse_print_cp; assumption.
+Qed.
+
+(* ------------------------------------------------------------------ *)
+(** * the structural round trip *)
+
+Definition is_empty_slice (v : val) : bool := match v with VSlice [] => true | _ => false end.
+
+(** [typed k v]: v is a Go value of the shape k, in canonical form (an empty slice in an omitempty field is written nil:
+    the two are indistinguishable on the wire) *)
+Fixpoint typed (fuel : nat) (k : jkind) (v : val) : bool :=
+  match fuel with
+  | O => false
+  | S f =>
+      match k with
+      | JKPtr k' => match v with VNil => true | _ => typed f k' v end
+      | JKAny => match v with VNil | VStr _ | VBool _ | VFloat _ => true | _ => false end
+      | JKString | JKTime => match v with VStr _ => true | _ => false end
+      | JKInt => match v with VInt _ => true | _ => false end
+      | JKFloat => match v with VFloat _ => true | _ => false end
+      | JKBool => match v with VBool _ => true | _ => false end
+      | JKSlice ek => match v with VNil => true | VSlice l => forallb (typed f ek) l | _ => false end
+      | JKStruct fields =>
+          match v with
+          | VStruct vs =>
+              (fix go (fields : list (string * bool * jkind)) (vs : list val) : bool :=
+                 match fields, vs with
+                 | [], [] => true
+                 | (_, omit, fk) :: fr, x :: xr => typed f fk x && negb (omit && is_empty_slice x) && go fr xr
+                 | _, _ => false
+                 end) fields vs
+          | _ => false
+          end
+      end
+  end.
+
+Lemma encode_not_null : forall f k v, typed f k v = true -> v <> VNil -> encode f k v <> JNull.
+Proof.
+  induction f as [|f IH]; intros k v Ht Hv; [discriminate|].
+  cbn [typed] in Ht. cbn [encode].
+  destruct k; destruct v; try discriminate; try congruence; try (apply IH; [exact Ht|discriminate]).
+Qed.
+
+(* ---- struct fields ---- *)
+Fixpoint enc_fields (f : nat) (fields : list (string * bool * jkind)) (vs : list val) : list (string * jv) :=
+  match fields, vs with
+  | (key, omit, fk) :: fr, x :: xr =>
+      if omit && json_empty fk x then enc_fields f fr xr else (key, encode f fk x) :: enc_fields f fr xr
+  | _, _ => []
+  end.
+
+Lemma encode_struct f fields vs : encode (S f) (JKStruct fields) (VStruct vs) = JObj (enc_fields f fields vs).
+Proof.
+  cbn [encode]. f_equal. revert vs. induction fields as [|[[key omit] fk] fr IH]; intros vs; [reflexivity|].
+  destruct vs as [|x xr]; [reflexivity|]. cbn [enc_fields]. rewrite <- IH. reflexivity.
+Qed.
+
+Fixpoint dec_fields (f : nat) (obj : list (string * jv)) (fields : list (string * bool * jkind)) : res :=
+  match fields with
+  | [] => Ok (VStruct [])
+  | (key, _, fk) :: fr =>
+      let fv := match lookup_key key obj with None => Ok (zero_val f fk) | Some x => decode f fk x end in
+      match fv, dec_fields f obj fr with
+      | Ok v, Ok (VStruct vs) => Ok (VStruct (v :: vs))
+      | _, _ => Err
+      end
+  end.
+
+Lemma decode_struct f fields obj : decode (S f) (JKStruct fields) (JObj obj) = dec_fields f obj fields.
+Proof.
+  cbn [decode]. induction fields as [|[[key omit] fk] fr IH]; [reflexivity|].
+  cbn [dec_fields]. rewrite <- IH. reflexivity.
+Qed.
+
+Fixpoint typed_fields (f : nat) (fields : list (string * bool * jkind)) (vs : list val) : bool :=
+  match fields, vs with
+  | [], [] => true
+  | (_, omit, fk) :: fr, x :: xr => typed f fk x && negb (omit && is_empty_slice x) && typed_fields f fr xr
+  | _, _ => false
+  end.
+
+Lemma typed_struct f fields vs : typed (S f) (JKStruct fields) (VStruct vs) = typed_fields f fields vs.
+Proof.
+  cbn [typed]. revert vs. induction fields as [|[[key omit] fk] fr IH]; intros vs; destruct vs as [|x xr]; try reflexivity.
+  cbn [typed_fields]. rewrite <- IH. reflexivity.
+Qed.
+
+Definition keys (fields : list (string * bool * jkind)) : list string := map (fun fd => fst (fst fd)) fields.
+
+Lemma enc_fields_app f pre vpre post vpost : length pre = length vpre ->
+  enc_fields f (pre ++ post) (vpre ++ vpost) = (enc_fields f pre vpre ++ enc_fields f post vpost)%list.
+Proof.
+  revert vpre. induction pre as [|[[key omit] fk] pre IH]; intros vpre H; destruct vpre as [|x vpre]; try discriminate; [reflexivity|].
+  cbn [app enc_fields]. inversion H as [H']. rewrite (IH _ H'). destruct (omit && json_empty fk x); reflexivity.
+Qed.
+
+Lemma enc_fields_keys f fields vs kv : In kv (enc_fields f fields vs) -> In (fst kv) (keys fields).
+Proof.
+  revert vs. induction fields as [|[[key omit] fk] fr IH]; intros vs H; [destruct vs; contradiction|].
+  destruct vs as [|x xr]; [contradiction|]. cbn [enc_fields] in H. cbn.
+  destruct (omit && json_empty fk x); [right; eapply IH; exact H|].
+  destruct H as [H|H]; [left; subst; reflexivity|right; eapply IH; exact H].
+Qed.
+
+Lemma find_none_all {A} (p : A -> bool) l : (forall x, In x l -> p x = false) -> find p l = None.
+Proof. induction l as [|a l IH]; intros H; [reflexivity|]. cbn. rewrite (H a (or_introl eq_refl)). apply IH. intros x Hx. apply H. right. exact Hx. Qed.
+
+Lemma find_app_none {A} (p : A -> bool) l1 l2 : find p l1 = None -> find p (l1 ++ l2) = find p l2.
+Proof. induction l1 as [|a l1 IH]; intros H; [reflexivity|]. cbn in *. destruct (p a); [discriminate|apply IH; exact H]. Qed.
+
+Lemma find_app_some {A} (p : A -> bool) l1 l2 x : find p l1 = Some x -> find p (l1 ++ l2) = Some x.
+Proof. induction l1 as [|a l1 IH]; intros H; [discriminate|]. cbn in *. destruct (p a); [exact H|apply IH; exact H]. Qed.
+
+Lemma lower_in l key : In key l -> In (lower_s key) (map lower_s l).
+Proof. apply in_map. Qed.
+
+(** looking a key up in an object whose other keys differ from it even case-insensitively *)
+Lemma lookup_unique key A M B :
+  (forall kv, In kv A -> String.eqb (lower_s (fst kv)) (lower_s key) = false) ->
+  (forall kv, In kv B -> String.eqb (lower_s (fst kv)) (lower_s key) = false) ->
+  (M = [] \/ exists j, M = [(key, j)]) ->
+  lookup_key key (A ++ M ++ B) = match M with [] => None | (_, j) :: _ => Some j end.
+Proof.
+  intros HA HB HM. unfold lookup_key.
+  assert (EA : forall kv, In kv A -> String.eqb (fst kv) key = false).
+  { intros kv Hin. destruct (String.eqb (fst kv) key) eqn:E; [|reflexivity]. apply String.eqb_eq in E.
+    specialize (HA _ Hin). rewrite E, String.eqb_refl in HA. discriminate. }
+  assert (EB : forall kv, In kv B -> String.eqb (fst kv) key = false).
+  { intros kv Hin. destruct (String.eqb (fst kv) key) eqn:E; [|reflexivity]. apply String.eqb_eq in E.
+    specialize (HB _ Hin). rewrite E, String.eqb_refl in HB. discriminate. }
+  rewrite !rev_app_distr.
+  destruct HM as [->|[j ->]].
+  - cbn [rev app]. rewrite app_nil_r.
+    rewrite (find_none_all (fun kv => String.eqb (fst kv) key)).
+    2:{ intros x Hx. apply in_app_or in Hx as [Hx|Hx]; apply in_rev in Hx; auto. }
+    rewrite (find_none_all (fun kv => String.eqb (lower_s (fst kv)) (lower_s key))); [reflexivity|].
+    intros x Hx. apply in_app_or in Hx as [Hx|Hx]; apply in_rev in Hx; auto.
+  - cbn [rev app]. rewrite <- app_assoc.
+    rewrite find_app_none by (apply find_none_all; intros x Hx; apply in_rev in Hx; auto).
+    cbn [app find fst]. rewrite String.eqb_refl. reflexivity.
+Qed.
+
+Lemma nodup_ci_app_mid pre key post : nodup_ci (pre ++ key :: post) = true ->
+  (forall k, In k pre -> String.eqb (lower_s k) (lower_s key) = false) /\
+  (forall k, In k post -> String.eqb (lower_s k) (lower_s key) = false).
+Proof.
+  induction pre as [|a pre IH]; cbn [app nodup_ci]; intros H.
+  - apply andb_true_iff in H as [H1 _]. apply negb_true_iff in H1. split; [contradiction|].
+    intros k Hk. destruct (String.eqb (lower_s k) (lower_s key)) eqn:E; [|reflexivity].
+    apply String.eqb_eq in E. exfalso.
+    assert (X : mem_s (lower_s key) (map lower_s post) = true) by (apply mem_s_In; rewrite <- E; apply in_map; exact Hk).
+    congruence.
+  - apply andb_true_iff in H as [H1 H2]. apply negb_true_iff in H1. destruct (IH H2) as [I1 I2]. split; [|exact I2].
+    intros k [<-|Hk]; [|apply I1; exact Hk].
+    destruct (String.eqb (lower_s a) (lower_s key)) eqn:E; [|reflexivity]. apply String.eqb_eq in E. exfalso.
+    assert (X : mem_s (lower_s a) (map lower_s (pre ++ key :: post)) = true).
+    { apply mem_s_In. rewrite E. apply in_map. apply in_or_app. right. left. reflexivity. }
+    congruence.
+Qed.
+
+Lemma zero_is_omitted f fk x : typed (S f) fk x = true -> json_empty fk x = true -> is_empty_slice x = false -> zero_val (S f) fk = x.
+Proof.
+  intros Ht He Hs. destruct fk; cbn [typed] in Ht; cbn [json_empty] in He; cbn [zero_val];
+    destruct x; try discriminate; try reflexivity.
+  - f_equal. destruct cps; [reflexivity|discriminate].
+  - f_equal. apply Z.eqb_eq in He. congruence.
+  - f_equal. apply Z.eqb_eq in He. congruence.
+  - destruct b; [discriminate|reflexivity].
+  - destruct l; discriminate.
+Qed.
+
+(** the lookup of each field's key in the encoded object *)
+Lemma lookup_field f pre vpre key omit fk x post vpost :
+  length pre = length vpre ->
+  nodup_ci (keys (pre ++ (key, omit, fk) :: post)) = true ->
+  lookup_key key (enc_fields f (pre ++ (key, omit, fk) :: post) (vpre ++ x :: vpost)) =
+    if omit && json_empty fk x then None else Some (encode f fk x).
+Proof.
+  intros Hl Hn. rewrite enc_fields_app by exact Hl. cbn [enc_fields].
+  unfold keys in Hn. rewrite map_app in Hn. cbn [map fst] in Hn.
+  destruct (nodup_ci_app_mid _ _ _ Hn) as [N1 N2].
+  assert (HA : forall kv, In kv (enc_fields f pre vpre) -> String.eqb (lower_s (fst kv)) (lower_s key) = false).
+  { intros kv Hin. apply N1. exact (enc_fields_keys _ _ _ _ Hin). }
+  assert (HB : forall kv, In kv (enc_fields f post vpost) -> String.eqb (lower_s (fst kv)) (lower_s key) = false).
+  { intros kv Hin. apply N2. exact (enc_fields_keys _ _ _ _ Hin). }
+  destruct (omit && json_empty fk x).
+  - change (enc_fields f pre vpre ++ enc_fields f post vpost)%list with (enc_fields f pre vpre ++ [] ++ enc_fields f post vpost)%list.
+    rewrite (lookup_unique key _ [] _ HA HB (or_introl eq_refl)). reflexivity.
+  - change ((key, encode f fk x) :: enc_fields f post vpost) with ([(key, encode f fk x)] ++ enc_fields f post vpost)%list.
+    rewrite (lookup_unique key _ [(key, encode f fk x)] _ HA HB); [reflexivity|right; eexists; reflexivity].
+Qed.
+
+Section RT.
+Variable f : nat.
+Hypothesis IH : forall k v, wf_jkind f k = true -> typed f k v = true -> decode f k (encode f k v) = Ok v.
+
+Lemma dec_fields_suffix : forall post vpost pre vpre,
+  length pre = length vpre -> typed_fields f post vpost = true -> nodup_ci (keys (pre ++ post)) = true ->
+  (forall fd, In fd post -> wf_jkind f (snd fd) = true) ->
+  dec_fields f (enc_fields f (pre ++ post) (vpre ++ vpost)) post = Ok (VStruct vpost).
+Proof.
+  induction post as [|[[key omit] fk] post IHp]; intros vpost pre vpre Hl Ht Hn Hwf.
+  - destruct vpost; [reflexivity|discriminate].
+  - destruct vpost as [|x vpost]; [discriminate|]. cbn [typed_fields] in Ht.
+    apply andb_true_iff in Ht as [Ht Ht3]. apply andb_true_iff in Ht as [Ht1 Ht2]. apply negb_true_iff in Ht2.
+    cbn [dec_fields]. rewrite (lookup_field f pre vpre key omit fk x post vpost Hl Hn).
+    assert (Hrest : dec_fields f (enc_fields f (pre ++ (key, omit, fk) :: post) (vpre ++ x :: vpost)) post = Ok (VStruct vpost)).
+    { replace (pre ++ (key, omit, fk) :: post)%list with ((pre ++ [(key, omit, fk)]) ++ post)%list by (rewrite <- app_assoc; reflexivity).
+      replace (vpre ++ x :: vpost)%list with ((vpre ++ [x]) ++ vpost)%list by (rewrite <- app_assoc; reflexivity).
+      apply IHp; [rewrite !app_length; cbn; lia|exact Ht3|rewrite <- app_assoc; exact Hn|intros fd Hfd; apply Hwf; right; exact Hfd]. }
+    rewrite Hrest.
+    destruct (omit && json_empty fk x) eqn:E.
+    + apply andb_true_iff in E as [Eo Ee]. rewrite Eo in Ht2. cbn in Ht2.
+      destruct f as [|f']; [discriminate|]. rewrite (zero_is_omitted f' fk x Ht1 Ee Ht2). reflexivity.
+    + rewrite (IH fk x (Hwf _ (or_introl eq_refl)) Ht1). reflexivity.
+Qed.
+End RT.
+
+(** decoding what was encoded gives the value back, for every kind whose structs have keys distinct under case folding *)
+Theorem roundtrip : forall f k v, wf_jkind f k = true -> typed f k v = true -> decode f k (encode f k v) = Ok v.
+Proof.
+  induction f as [|f IH]; intros k v Hw Ht; [discriminate|].
+  destruct k.
+  - (* string *) cbn in Ht. destruct v; try discriminate. reflexivity.
+  - cbn in Ht. destruct v; try discriminate. cbn. rewrite Z.mod_mul by lia. cbn. rewrite Z.div_mul by lia. reflexivity.
+  - cbn in Ht. destruct v; try discriminate. reflexivity.
+  - cbn in Ht. destruct v; try discriminate. reflexivity.
+  - cbn in Ht. destruct v; try discriminate; reflexivity.
+  - cbn in Ht. destruct v; try discriminate. reflexivity.
+  - (* ptr *)
+    cbn [wf_jkind] in Hw. cbn [typed] in Ht.
+    destruct v eqn:Ev; [reflexivity|..];
+      (assert (Hne : encode f k v <> JNull) by (subst v; apply encode_not_null; [exact Ht|discriminate]);
+       cbn [encode decode]; rewrite <- Ev in *;
+       destruct (encode f k v) eqn:Ee; [congruence|..]; rewrite <- Ee; subst v; apply IH; assumption).
+  - (* slice *)
+    cbn [wf_jkind] in Hw. cbn [typed] in Ht. destruct v; try discriminate; [cbn; destruct f; reflexivity|].
+    cbn [encode decode]. induction l as [|a l IHl]; [reflexivity|].
+    cbn [forallb] in Ht. apply andb_true_iff in Ht as [Ha Hl]. cbn [map].
+    rewrite (IH k a Hw Ha). rewrite (IHl Hl). reflexivity.
+  - (* struct *)
+    destruct v; try discriminate. rewrite typed_struct in Ht. rewrite encode_struct, decode_struct.
+    cbn [wf_jkind] in Hw. apply andb_true_iff in Hw as [Hn Hf].
+    assert (Hwf : forall fd, In fd fields -> wf_jkind f (snd fd) = true).
+    { intros fd Hin. rewrite forallb_forall in Hf. specialize (Hf _ Hin). apply andb_true_iff in Hf as [_ Hf]. exact Hf. }
+    exact (dec_fields_suffix f IH fields l [] [] eq_refl Ht Hn Hwf).
+Qed.
+
+(** ... hence serialising the decoded message again yields the same JSON *)
+Corollary reencode_same : forall f k v v', wf_jkind f k = true -> typed f k v = true ->
+  decode f k (encode f k v) = Ok v' -> encode f k v' = encode f k v.
+Proof. intros f k v v' Hw Ht H. rewrite (roundtrip f k v Hw Ht) in H. inversion H. reflexivity. Qed.
+
+(** nil and empty slices are the same on the wire in an omitempty field (both are left out) *)
+Lemma nil_empty_same_json ek : json_empty (JKSlice ek) (VSlice []) = json_empty (JKSlice ek) VNil.
+Proof. reflexivity. Qed.
